@@ -320,6 +320,7 @@ def _replay_decode(arg):
         return local
     sentinel_before = None
     outcome = None
+    fp_before = fingerprint(spec)
     sys.settrace(tr)
     try:
         try:
@@ -333,7 +334,7 @@ def _replay_decode(arg):
             outcome = 'other:' + type(e).__name__
     finally:
         sys.settrace(None)
-    return {'outcome': outcome, 'lines': lines[0]}
+    return {'outcome': outcome, 'lines': lines[0], 'state_changed': fingerprint(spec) != fp_before}
 
 
 _SERVER = []
@@ -362,6 +363,9 @@ def replay(v):
     res = r['result']
     if res['outcome'] == 'MemoryError':
         return True, 'decode(%s) raised MemoryError under a 1 GiB limit' % data
+    if v['label'] == 'compiled-specification-modified' and res.get('state_changed'):
+        return True, 'decode(%s) (%s) leaves the compiled specification modified: a later call sees other state' % (
+            data, res['outcome'])
     if v['label'] == 'work-budget-exceeded' and res['lines'] > budget(n):
         return True, 'decode(%s): %d line events for %d octets (budget %d)' % (data, res['lines'], n, budget(n))
     return False, 'decode(%s) finished: %s after %d line events' % (data, res['outcome'], res['lines'])
